@@ -38,6 +38,7 @@ pub fn main(args: &Args) -> i32 {
         rogue_proposal: 6,
         leave: 2,
         immediate: 0,
+        reinvite: true,
         ..Weights::default()
     };
     let spec = Spec {
